@@ -871,6 +871,7 @@ def construct(ex, n, st, ct):
     k = class_kind(ct.name)
     args = n.get('inner', [])
     if k == 'string':
+        ex.scan_divisions(n, st)      # the text itself is not modelled, but whatever is computed to build it must be defined (C17)
         lit = find_string_literal(n)
         if lit is not None:
             return Opaque('string:' + lit)
